@@ -489,7 +489,9 @@ pub fn prng_checks(seed: u64, draws: usize, counters: &mut BTreeMap<String, u64>
         }
     }
     // bounded draws
-    let moduli: [u64; 9] = [1, 2, 3, 5, 6, 7, 10, (1u64 << 31) + 1, (1u64 << 63) + 1];
+    // the last two moduli leave a large remainder 2^64 mod m (a quarter and three eighths of 2^64): without the
+    // rejection step the values below the remainder come out twice as often as the others
+    let moduli: [u64; 11] = [1, 2, 3, 5, 6, 7, 10, (1u64 << 31) + 1, (1u64 << 63) + 1, 3u64 << 62, 5u64 << 61];
     let mut p = match PRNG::new(Some(seed_from_u64(rng.next_u64()))) {
         Ok(p) => p,
         Err(e) => return Some(("prng-error".into(), es(e))),
@@ -515,6 +517,57 @@ pub fn prng_checks(seed: u64, draws: usize, counters: &mut BTreeMap<String, u64>
             let (bad, chi2) = chi2_exceeds(&counts, draws as f64 / cells as f64);
             if bad {
                 return Some(("modulo-bias".into(), format!("get_random_in_range({}): chi2 = {:.1} over {} cells, {} draws: {:?}", m, chi2, cells, draws, counts)));
+            }
+        }
+    }
+    // every bit of a random bit array is uniform, also when the array ends inside a byte (the generator clears the
+    // padding bits of the LAST byte only): per-bit frequencies over many draws of ragged bit arrays, through the PRNG
+    // and through a Random node of the evaluator. Hoeffding: |count - N/2| >= sqrt(20 N) has probability < 2 e^-40.
+    {
+        let n_draws = (draws / 100).clamp(2000, 20000);
+        let bound = (20.0 * n_draws as f64).sqrt();
+        for bits in [9u64, 13, 27, 70] {
+            let t = array_type(vec![bits], BIT);
+            for source in 0..2 {
+                let mut counts = vec![0u64; bits as usize];
+                let mut pr = match PRNG::new(Some(seed_from_u64(rng.next_u64()))) {
+                    Ok(p) => p,
+                    Err(e) => return Some(("prng-error".into(), es(e))),
+                };
+                let ctxr = create_context().ok()?;
+                let gr = ctxr.create_graph().ok()?;
+                let rnode = gr.random(t.clone()).ok()?;
+                let mut evr = SimpleEvaluator::new(Some(seed_from_u64(rng.next_u64()))).ok()?;
+                for _ in 0..n_draws {
+                    let v = if source == 0 {
+                        match guarded(|| pr.get_random_value(t.clone())) {
+                            Ok(Ok(v)) => v,
+                            Ok(Err(e)) => return Some(("prng-error".into(), es(e))),
+                            Err(pn) => return Some(("panic".into(), pn)),
+                        }
+                    } else {
+                        match guarded(|| evr.evaluate_node(rnode.clone(), vec![])) {
+                            Ok(Ok(v)) => v,
+                            Ok(Err(e)) => return Some(("prng-error".into(), es(e))),
+                            Err(pn) => return Some(("panic".into(), pn)),
+                        }
+                    };
+                    if let Err(e) = valid_encoding(&t, &v) {
+                        return Some(("invalid-encoding".into(), format!("random value of type bit[{}]: {}", bits, e)));
+                    }
+                    for (i, b) in crate::vals::dec(&v, &t).iter().enumerate() {
+                        counts[i] += *b as u64;
+                    }
+                }
+                for (i, c) in counts.iter().enumerate() {
+                    if (*c as f64 - n_draws as f64 / 2.0).abs() > bound {
+                        return Some((
+                            "biased-bits".into(),
+                            format!("{} of type bit[{}]: bit {} is set in {} of {} draws (every bit of the array must be uniform; bound {:.0})", if source == 0 { "PRNG::get_random_value" } else { "Random node" }, bits, i, c, n_draws, bound),
+                        ));
+                    }
+                }
+                *counters.entry("prng:ragged-bit-array-bits-tested".into()).or_insert(0) += bits;
             }
         }
     }
@@ -578,6 +631,8 @@ pub fn prng_checks(seed: u64, draws: usize, counters: &mut BTreeMap<String, u64>
         let mut observed = 0f64;
         let mut mean = 0f64;
         let mut var = 0f64;
+        // swap steps with modulus 32769..=65536 take the 3-byte draws: the number of indices in the lower half
+        let (mut low_obs, mut low_mean, mut low_n) = (0f64, 0f64, 0f64);
         for _ in 0..perms {
             let key = Value::from_bytes(rng.bytes(16));
             let v = match guarded(|| evp.evaluate_node(pnode.clone(), vec![key])) {
@@ -618,6 +673,19 @@ pub fn prng_checks(seed: u64, draws: usize, counters: &mut BTreeMap<String, u64>
                 mean += p;
                 var += p * (1.0 - p);
             }
+            for i in (32768..65536usize).rev() {
+                let j = pos[i] as usize;
+                let (vi, vj) = (a[i], a[j]);
+                a.swap(i, j);
+                pos[vi as usize] = j as u32;
+                pos[vj as usize] = i as u32;
+                let half = (i + 1) / 2;
+                if j < half {
+                    low_obs += 1.0;
+                }
+                low_mean += half as f64 / (i as f64 + 1.0);
+                low_n += 1.0;
+            }
             for r in 0..128 {
                 // Hoeffding: P(|obs - mean| > t) <= 2 exp(-2 t^2 / 512); t = 105 gives < e^-42 per class
                 if (class_obs[r] - class_mean[r]).abs() > 105.0 {
@@ -630,6 +698,13 @@ pub fn prng_checks(seed: u64, draws: usize, counters: &mut BTreeMap<String, u64>
                     ));
                 }
             }
+        }
+        // Hoeffding: |obs - mean| >= sqrt(20 N) has probability < 2 e^-40
+        if (low_obs - low_mean).abs() > (20.0 * low_n).sqrt() {
+            return Some((
+                "permutation-bias".into(),
+                format!("PermutationFromPRF(_, {}): of the {:.0} swap indices j_i with 32768 <= i < 65536 (3-byte draws), {:.0} lie in the lower half of their range, expected {:.0} (bound {:.0})", n, low_n, low_obs, low_mean, (20.0 * low_n).sqrt()),
+            ));
         }
         *counters.entry("prng:large-permutations".into()).or_insert(0) += perms as u64;
         let z = (observed - mean) / var.sqrt();
